@@ -10,12 +10,12 @@ import Irc.InvProofs.ReadOnlyLemmas
 
 namespace Irc
 
-open Reply
+open Reply RO
 
 variable {cfg : Cfg} {c : Nat} {x : Ctx}
 
 /-- from "world unchanged" to the uniform preservation shape -/
-theorem inv_of_w_eq {w w' : World} (h : InvCore w) (e : w' = w) :
+theorem RO.inv_of_w_eq {w w' : World} (h : InvCore w) (e : w' = w) :
     InvCore w' ∧ SameConnIds w w' := by
   subst e; exact ⟨h, SameConnIds.refl _⟩
 
@@ -68,7 +68,7 @@ theorem processLinks_world_unchanged {remote mask : Option Str} :
     (processLinks cfg c remote mask x).w = x.w := by
   unfold processLinks; split <;> rfl
 
-theorem helpLines_w (client subject : Str) (i : Nat) (lines : List Str) (total : Nat) (x : Ctx) :
+theorem RO.helpLines_w (client subject : Str) (i : Nat) (lines : List Str) (total : Nat) (x : Ctx) :
     (helpLines cfg client subject i lines total x).w = x.w := by
   induction lines generalizing i x with
   | nil => rfl
@@ -110,19 +110,19 @@ theorem processStats_world_unchanged {stat : Char} {server : Option Str}
 
 /-! ### HChannel: NAMES, LIST -/
 
-theorem namesLines_w (cn : Conn) (chname : Str) (ch : Channel) (users : Map User) (x : Ctx)
+theorem RO.namesLines_w (cn : Conn) (chname : Str) (ch : Channel) (users : Map User) (x : Ctx)
     (hm : ∀ n, Map.contains n ch.users = true → Map.contains n users = true) :
     (namesLines cfg cn chname ch users x).w = x.w := by
   simp only [namesLines]
   rw [foldl_reply_w, any_isNone_false]
   · rfl
   · rintro ⟨n, m⟩ hp
-    obtain ⟨u, hu⟩ := (Map.contains_iff _ _).mp (hm n (Map.contains_of_mem hp))
+    obtain ⟨u, hu⟩ := (Map.contains_iff _ _).mp (hm n (map_contains_of_mem hp))
     simp only [hu]
     repeat' split
     all_goals rfl
 
-theorem sendNamesFromChannel_w (chname : Str) (ch : Channel) (theEnd : Bool) (x : Ctx)
+theorem RO.sendNamesFromChannel_w (chname : Str) (ch : Channel) (theEnd : Bool) (x : Ctx)
     (hm : ∀ n, Map.contains n ch.users = true → Map.contains n x.w.users = true) :
     (sendNamesFromChannel cfg c chname ch theEnd x).w = x.w := by
   simp only [sendNamesFromChannel]
@@ -152,7 +152,7 @@ theorem processNames_world_unchanged {channels : List Str} (h : InvCore x.w) :
     apply sendNamesFromChannel_w
     intro n hn
     rw [hy]
-    exact h.memberIsUser _ _ _ (Map.lookup_of_mem_nodup h.chansNodup hp) hn
+    exact h.memberIsUser _ _ _ (map_lookup_of_mem_nodup h.chansNodup hp) hn
 
 theorem processList_world_unchanged {channels : List Str} {server : Option Str} :
     (processList cfg c channels server x).w = x.w := by
@@ -212,7 +212,7 @@ theorem processWallops_world_unchanged {msg : Message}
 
 /-! ### WHO -/
 
-theorem sendWhoInfo_w (cn : Conn) (channel : Option (Str × ChanUserModes)) (userNick : Str)
+theorem RO.sendWhoInfo_w (cn : Conn) (channel : Option (Str × ChanUserModes)) (userNick : Str)
     (user cmdUser : User) (x : Ctx) :
     (sendWhoInfo cfg cn channel userNick user cmdUser x).w = x.w := by
   unfold sendWhoInfo
@@ -236,7 +236,7 @@ theorem processWho_world_unchanged {mask : Str}
         · apply foldl_w_eq
           intro y p hy hp
           obtain ⟨m, chum⟩ := p
-          have hc := h.memberIsUser _ _ _ hch (Map.contains_of_mem hp)
+          have hc := h.memberIsUser _ _ _ hch (map_contains_of_mem hp)
           obtain ⟨uu, huu⟩ := (Map.contains_iff _ _).mp hc
           simp only [hy, huu]
           exact (sendWhoInfo_w ..).trans hy
@@ -249,7 +249,7 @@ theorem processWho_world_unchanged {mask : Str}
       · rfl
 
 /-! ### WHOIS -/
-theorem whoisOne_w (cn : Conn) (user : User) (nick : Str) (x : Ctx) (h : InvCore x.w)
+theorem RO.whoisOne_w (cn : Conn) (user : User) (nick : Str) (x : Ctx) (h : InvCore x.w)
     (hk : Map.contains nick x.w.users = true) :
     (whoisOne cfg cn user nick x).w = x.w := by
   obtain ⟨au, hau⟩ := (Map.contains_iff _ _).mp hk
@@ -287,4 +287,276 @@ theorem processWhois_world_unchanged {target : Option Str} {nickmasks : List Str
         · simp at hm
         · have := (List.mem_filter.mp hm).1
           exact (Map.contains_iff _ _).mpr ((Map.mem_keys_iff _ _).mp this)
+/-! ### PRIVMSG / NOTICE -/
+
+theorem RO.privmsgTarget_w (nick : Str) (notice : Bool) (text target : Str) (x : Ctx) (h : InvCore x.w) :
+    (privmsgTarget cfg c nick notice text target x).1.w = x.w := by
+  simp only [privmsgTarget]
+  generalize getPrivmsgTargetType target = p
+  generalize ((if notice = true then str "NOTICE " else str "PRIVMSG ") ++ target ++ str " :" ++ text) = ms
+  split
+  · split
+    · rename_i ch hch
+      split
+      · simp only []
+        apply foldl_sendDisplay_w
+        intro n hn
+        apply h.memberIsUser _ _ _ hch
+        split at hn
+        · exact specialRecipients_members _ _ _ (h.rankMirror _ _ hch) n hn
+        · have := (List.mem_filter.mp hn).1
+          exact (Map.contains_iff _ _).mpr ((Map.mem_keys_iff _ _).mp this)
+      · simp only []
+        split <;> rfl
+    · simp only []
+      split <;> rfl
+  · split
+    · rename_i u hu
+      have hk : Map.contains target x.w.users = true := (Map.contains_iff _ _).mpr ⟨u, hu⟩
+      simp only []
+      split
+      · split
+        · simp only [Ctx.reply_w]
+          exact Ctx.sendDisplay_w_eq _ _ _ _ hk
+        · exact Ctx.sendDisplay_w_eq _ _ _ _ hk
+      · exact Ctx.sendDisplay_w_eq _ _ _ _ hk
+    · simp only []
+      split <;> rfl
+
+theorem processPrivmsgNotice_world_unchanged {targets : List Str} {text : Str} {notice : Bool}
+    (h : InvCore x.w) (hl : Live x.w c) (ha : (x.conn c).authenticated = true) :
+    (processPrivmsgNotice cfg c targets text notice x).w = x.w := by
+  obtain ⟨n, u, hn, hu, _⟩ := sender_user h hl ha
+  simp only [processPrivmsgNotice, hn]
+  have hw : ((dedup targets).foldl (fun (x : Ctx × Bool) t =>
+      ((privmsgTarget cfg c n notice text t x.fst).fst,
+        x.snd || (privmsgTarget cfg c n notice text t x.fst).snd)) (x, false)).fst.w = x.w := by
+    apply foldl_proj_eq (fun (s : Ctx × Bool) => s.1.w)
+    intro t a ht _
+    simp only [] at ht ⊢
+    apply privmsgTarget_w
+    rw [ht]; exact h
+  have hc : Map.contains n x.w.users = true := (Map.contains_iff _ _).mpr ⟨u, hu⟩
+  simp only [hw, hc, Bool.not_true, Bool.and_false, Bool.false_eq_true, ↓reduceIte]
+/-! ### the uniform preservation corollaries
+
+The five corollaries for `sendIsupport`, `processLusers`, `processMotd`, `processPing`,
+`processAuthenticate` live in namespace `Irc.RO` because `Irc.InvProofs.Registration` (part B, which
+needs them for the welcome burst) already states theorems with the plain names. -/
+
+theorem RO.invCore_sendIsupport {client : Str} (h : InvCore x.w) :
+    InvCore (sendIsupport cfg client x).w ∧ SameConnIds x.w (sendIsupport cfg client x).w :=
+  inv_of_w_eq h (sendIsupport_world_unchanged)
+
+theorem invCore_unsupported {client : Str} {command : String} (h : InvCore x.w) :
+    InvCore (unsupported cfg client command x).w ∧ SameConnIds x.w (unsupported cfg client command x).w :=
+  inv_of_w_eq h (unsupported_world_unchanged)
+
+theorem RO.invCore_processLusers {client : Str} (h : InvCore x.w) :
+    InvCore (processLusers cfg client x).w ∧ SameConnIds x.w (processLusers cfg client x).w :=
+  inv_of_w_eq h (processLusers_world_unchanged h)
+
+theorem RO.invCore_processMotd {client : Str} {target : Option Str} (h : InvCore x.w) :
+    InvCore (processMotd cfg client target x).w ∧ SameConnIds x.w (processMotd cfg client target x).w :=
+  inv_of_w_eq h (processMotd_world_unchanged)
+
+theorem RO.invCore_processPing {token : Str} (h : InvCore x.w) :
+    InvCore (processPing cfg c token x).w ∧ SameConnIds x.w (processPing cfg c token x).w :=
+  inv_of_w_eq h (processPing_world_unchanged)
+
+theorem RO.invCore_processAuthenticate (h : InvCore x.w) :
+    InvCore (processAuthenticate cfg c x).w ∧ SameConnIds x.w (processAuthenticate cfg c x).w :=
+  inv_of_w_eq h (processAuthenticate_world_unchanged)
+
+theorem invCore_processVersion {target : Option Str} (h : InvCore x.w) :
+    InvCore (processVersion cfg c target x).w ∧ SameConnIds x.w (processVersion cfg c target x).w :=
+  inv_of_w_eq h (processVersion_world_unchanged)
+
+theorem invCore_processAdmin {target : Option Str} (h : InvCore x.w) :
+    InvCore (processAdmin cfg c target x).w ∧ SameConnIds x.w (processAdmin cfg c target x).w :=
+  inv_of_w_eq h (processAdmin_world_unchanged)
+
+theorem invCore_processTime {server : Option Str} (h : InvCore x.w) :
+    InvCore (processTime cfg c server x).w ∧ SameConnIds x.w (processTime cfg c server x).w :=
+  inv_of_w_eq h (processTime_world_unchanged)
+
+theorem invCore_processStats {stat : Char} {server : Option Str} (h : InvCore x.w) (hl : Live x.w c)
+    (ha : (x.conn c).authenticated = true) :
+    InvCore (processStats cfg c stat server x).w ∧ SameConnIds x.w (processStats cfg c stat server x).w :=
+  inv_of_w_eq h (processStats_world_unchanged h hl ha)
+
+theorem invCore_processLinks {remote mask : Option Str} (h : InvCore x.w) :
+    InvCore (processLinks cfg c remote mask x).w ∧ SameConnIds x.w (processLinks cfg c remote mask x).w :=
+  inv_of_w_eq h (processLinks_world_unchanged)
+
+theorem invCore_processHelp {subject : Option Str} (h : InvCore x.w) :
+    InvCore (processHelp cfg c subject x).w ∧ SameConnIds x.w (processHelp cfg c subject x).w :=
+  inv_of_w_eq h (processHelp_world_unchanged)
+
+theorem invCore_processInfo (h : InvCore x.w) :
+    InvCore (processInfo cfg c x).w ∧ SameConnIds x.w (processInfo cfg c x).w :=
+  inv_of_w_eq h (processInfo_world_unchanged)
+
+theorem invCore_processNames {channels : List Str} (h : InvCore x.w) :
+    InvCore (processNames cfg c channels x).w ∧ SameConnIds x.w (processNames cfg c channels x).w :=
+  inv_of_w_eq h (processNames_world_unchanged h)
+
+theorem invCore_processList {channels : List Str} {server : Option Str} (h : InvCore x.w) :
+    InvCore (processList cfg c channels server x).w ∧ SameConnIds x.w (processList cfg c channels server x).w :=
+  inv_of_w_eq h (processList_world_unchanged)
+
+theorem invCore_processPrivmsgNotice {targets : List Str} {text : Str} {notice : Bool} (h : InvCore x.w) (hl : Live x.w c)
+    (ha : (x.conn c).authenticated = true) :
+    InvCore (processPrivmsgNotice cfg c targets text notice x).w ∧ SameConnIds x.w (processPrivmsgNotice cfg c targets text notice x).w :=
+  inv_of_w_eq h (processPrivmsgNotice_world_unchanged h hl ha)
+
+theorem invCore_processWho {mask : Str} (h : InvCore x.w) (hl : Live x.w c)
+    (ha : (x.conn c).authenticated = true) :
+    InvCore (processWho cfg c mask x).w ∧ SameConnIds x.w (processWho cfg c mask x).w :=
+  inv_of_w_eq h (processWho_world_unchanged h hl ha)
+
+theorem invCore_processWhois {target : Option Str} {nickmasks : List Str} (h : InvCore x.w) (hl : Live x.w c)
+    (ha : (x.conn c).authenticated = true) :
+    InvCore (processWhois cfg c target nickmasks x).w ∧ SameConnIds x.w (processWhois cfg c target nickmasks x).w :=
+  inv_of_w_eq h (processWhois_world_unchanged h hl ha)
+
+theorem invCore_processWhowas {nickname : Str} {count : Option Nat} {server : Option Str} (h : InvCore x.w) :
+    InvCore (processWhowas cfg c nickname count server x).w ∧ SameConnIds x.w (processWhowas cfg c nickname count server x).w :=
+  inv_of_w_eq h (processWhowas_world_unchanged)
+
+theorem invCore_processUserhost {nicknames : List Str} (h : InvCore x.w) :
+    InvCore (processUserhost cfg c nicknames x).w ∧ SameConnIds x.w (processUserhost cfg c nicknames x).w :=
+  inv_of_w_eq h (processUserhost_world_unchanged)
+
+theorem invCore_processWallops {msg : Message} (h : InvCore x.w) (hl : Live x.w c)
+    (ha : (x.conn c).authenticated = true) :
+    InvCore (processWallops cfg c msg x).w ∧ SameConnIds x.w (processWallops cfg c msg x).w :=
+  inv_of_w_eq h (processWallops_world_unchanged h hl ha)
+
+theorem invCore_processIson {nicknames : List Str} (h : InvCore x.w) :
+    InvCore (processIson cfg c nicknames x).w ∧ SameConnIds x.w (processIson cfg c nicknames x).w :=
+  inv_of_w_eq h (processIson_world_unchanged)
+
+/-! ### output facts (for C19) -/
+
+/-- a server-originated line: `":" ++ cfg.name ++ " " ++ t` -/
+def srvLine (cfg : Cfg) (t : Str) : Str := str ":" ++ cfg.name ++ str " " ++ t
+
+theorem srvLine_eq (cfg : Cfg) (t : Str) : srvLine cfg t = ':' :: (cfg.name ++ ' ' :: t) := by
+  simp [srvLine, str]
+
+theorem lusers_output {client : Str} :
+    (processLusers cfg client x).direct = x.direct ++
+      [ srvLine cfg (RplLUserClient251 client (x.w.users.length - x.w.invisibleCount) x.w.invisibleCount 1),
+        srvLine cfg (RplLUserOp252 client x.w.operatorsCount),
+        srvLine cfg (RplLUserUnknown253 client 0),
+        srvLine cfg (RplLUserChannels254 client x.w.channels.length),
+        srvLine cfg (RplLUserMe255 client x.w.users.length 1),
+        srvLine cfg (RplLocalUsers265 client x.w.users.length x.w.maxUsers),
+        srvLine cfg (RplGlobalUsers266 client x.w.users.length x.w.maxUsers) ] := by
+  simp only [processLusers, srvLine_eq, Ctx.reply_direct, List.append_assoc, List.cons_append, List.nil_append]
+  split <;> rfl
+
+theorem ison_output_chunks {nicknames : List Str} :
+    (processIson cfg c nicknames x).direct = x.direct ++
+      (chunks 20 nicknames).map (fun nicks => srvLine cfg
+        (RplIson303 (x.conn c).clientName (nicks.filter (fun n => Map.contains n x.w.users)))) := by
+  simp only [processIson, srvLine_eq]
+  exact foldl_reply_dep_direct cfg
+    (fun w (nicks : List Str) => RplIson303 (x.conn c).clientName (nicks.filter (fun n => Map.contains n w.users))) _ x
+
+theorem ison_output {nicknames : List Str} (hne : nicknames ≠ []) (hlen : nicknames.length ≤ 20) :
+    (processIson cfg c nicknames x).direct = x.direct ++
+      [srvLine cfg (RplIson303 (x.conn c).clientName
+        (nicknames.filter (fun n => Map.contains n x.w.users)))] := by
+  rw [ison_output_chunks, chunks_le 20 nicknames hlen hne]
+  rfl
+
+/-- one USERHOST reply entry: `nick[*]=±~name@host` -/
+def userhostEntry (n : Str) (u : User) : Str :=
+  n ++ (if u.modes.isLocalOper then str "*" else []) ++ str "=" ++
+    (if u.away.isSome then str "-" else str "+") ++ str "~" ++ u.name ++ str "@" ++ u.hostname
+
+def userhostEntries (users : Map User) (nicks : List Str) : List Str :=
+  nicks.filterMap (fun n => (Map.lookup n users).map (userhostEntry n))
+
+theorem userhost_output_chunks {nicknames : List Str} :
+    (processUserhost cfg c nicknames x).direct = x.direct ++
+      (chunks 20 nicknames).map (fun nicks => srvLine cfg
+        (RplUserHost302 (x.conn c).clientName (userhostEntries x.w.users nicks))) := by
+  simp only [processUserhost, srvLine_eq]
+  have := foldl_reply_dep_direct cfg
+    (fun w (nicks : List Str) => RplUserHost302 (x.conn c).clientName (userhostEntries w.users nicks)) (chunks 20 nicknames) x
+  rw [← this]
+  congr 2
+  funext y nicks
+  congr 2
+  unfold userhostEntries
+  congr 1
+  funext n
+  cases Map.lookup n y.w.users with
+  | none => rfl
+  | some u =>
+    simp only [Option.map_some, userhostEntry, str]
+    cases u.away <;> simp
+
+/-- the nicks listed over all 303 lines, in order, are exactly the queried nicks that are users -/
+theorem ison_listed (users : Map User) (nicknames : List Str) :
+    ((chunks 20 nicknames).map (fun nicks => nicks.filter (fun n => Map.contains n users))).flatten =
+      nicknames.filter (fun n => Map.contains n users) := by
+  rw [← List.filter_flatten, chunks_flatten 20 (by decide)]
+
+theorem userhost_output {nicknames : List Str} (hne : nicknames ≠ []) (hlen : nicknames.length ≤ 20) :
+    (processUserhost cfg c nicknames x).direct = x.direct ++
+      [srvLine cfg (RplUserHost302 (x.conn c).clientName (userhostEntries x.w.users nicknames))] := by
+  rw [userhost_output_chunks, chunks_le 20 nicknames hlen hne]
+  rfl
+
+/-- the entries over all 302 lines, in order, are exactly the entries of the queried nicks that are users -/
+theorem userhost_listed (users : Map User) (nicknames : List Str) :
+    ((chunks 20 nicknames).map (userhostEntries users)).flatten = userhostEntries users nicknames := by
+  unfold userhostEntries
+  rw [← List.filterMap_flatten, chunks_flatten 20 (by decide)]
+
+/-- a nick is listed iff it is queried and a key of `users` -/
+theorem mem_userhostEntries (users : Map User) (nicks : List Str) (e : Str) :
+    e ∈ userhostEntries users nicks ↔
+      ∃ n u, n ∈ nicks ∧ Map.lookup n users = some u ∧ e = userhostEntry n u := by
+  simp only [userhostEntries, List.mem_filterMap, Option.map_eq_some_iff]
+  constructor
+  · rintro ⟨n, hn, u, hu, rfl⟩; exact ⟨n, u, hn, hu, rfl⟩
+  · rintro ⟨n, u, hn, hu, rfl⟩; exact ⟨n, hn, u, hu, rfl⟩
+
+/-! ### non-vacuity: the hypotheses are satisfiable (world `RO.Ex.w`: users alice (connection 1,
+invisible operator with +w, away) and bob (connection 2), both on `#c`) and the handlers do
+produce output there -/
+
+example : InvCore Ex.x.w ∧ Live Ex.x.w 1 ∧ (Ex.x.conn 1).authenticated = true :=
+  ⟨Ex.inv, Ex.live1, Ex.auth1⟩
+
+example : (processLusers Ex.cfg (str "alice") Ex.x).w = Ex.x.w :=
+  processLusers_world_unchanged Ex.inv
+example : (processLusers Ex.cfg (str "alice") Ex.x).direct.map String.ofList =
+    [":irc.irc 251 alice :There are 1 users and 1 invisible on 1 servers",
+     ":irc.irc 252 alice 1 :operator(s) online", ":irc.irc 253 alice 0 :unknown connection(s)",
+     ":irc.irc 254 alice 1 :channels formed", ":irc.irc 255 alice :I have 2 clients and 1 servers",
+     ":irc.irc 265 alice 2 2 :Current local users 2, max 2",
+     ":irc.irc 266 alice 2 2 :Current global users 2, max 2"] := by decide
+example : (processStats Ex.cfg 1 'u' none Ex.x).direct.length = 2 := by decide
+example : (processNames Ex.cfg 1 [] Ex.x).direct.length = 2 := by decide
+example : (processNames Ex.cfg 1 [Ex.chan] Ex.x).direct.length = 2 := by decide
+example : (processWho Ex.cfg 1 Ex.chan Ex.x).direct.length = 3 := by decide
+example : (processWhois Ex.cfg 1 none [Ex.bob, str "a*"] Ex.x).direct.length = 12 := by decide
+example : (processPrivmsgNotice Ex.cfg 1 [Ex.chan] (str "hi") false Ex.x).queued =
+    [(2, str ":alice!~al@h1 PRIVMSG #c :hi")] := by decide
+example : (processPrivmsgNotice Ex.cfg 1 [str "+#c", Ex.bob] (str "hi") true Ex.x).queued.length = 2 := by
+  decide
+example : (processWallops Ex.cfg 1 ⟨none, str "WALLOPS", [str "x"]⟩ Ex.x).queued.length = 1 := by decide
+example : (processIson Ex.cfg 1 [Ex.bob, str "zed", Ex.alice] Ex.x).direct.map String.ofList =
+    [":irc.irc 303 alice :bob alice"] := by decide
+example : (processUserhost Ex.cfg 1 [Ex.bob, str "zed", Ex.alice] Ex.x).direct.map String.ofList =
+    [":irc.irc 302 alice :bob=+~bo@h2 alice*=-~al@h1"] := by decide
+/-- the guard of LUSERS is a real one: without the invariant the subtraction does underflow -/
+example : (processLusers Ex.cfg (str "a") { w := { invisibleCount := 1 } }).w.panicked ≠ none := by decide
+
 end Irc
